@@ -179,6 +179,35 @@ def run(ctx):
             except Exception as e:   # noqa
                 fail('tsv|raises|%s' % type(e).__name__, 'tsv round trip raised %r' % e, case)
             # ---------------- pickle: exact, typed
+            # ---------------- appending to a target that is still empty (a header-only table written with write_header=False), with
+            # encodings that write a byte-order mark; reading an empty source with header=
+            if ci % 6 == 2:
+                for benc in ('utf-16', 'utf-8-sig', 'utf-8'):
+                    for bkind in ('.csv', 'mem'):
+                        try:
+                            hdr_only = [list(T[0])]
+                            if bkind == 'mem':
+                                ms = etl.MemorySource()
+                                etl.tocsv(hdr_only, ms, encoding=benc, write_header=False)
+                                empty = ms.getvalue()
+                                backh = [tuple(r) for r in etl.fromcsv(etl.MemorySource(empty), encoding=benc, header=list(T[0]))]
+                                okb = backh == [tuple(T[0])]
+                                what = 'fromcsv(MemorySource(%r), header=...)' % empty
+                            else:
+                                pe, pf = path(bkind), path(bkind)
+                                etl.tocsv(hdr_only, pe, encoding=benc, write_header=False)
+                                etl.appendcsv(T, pe, encoding=benc)
+                                etl.tocsv(T, pf, encoding=benc, write_header=False)
+                                okb = open(pe, 'rb').read() == open(pf, 'rb').read() and \
+                                    [tuple(r) for r in etl.fromcsv(pe, encoding=benc, header=list(T[0]))] == [as_text(r) for r in T]
+                                what = 'appendcsv to an empty file'
+                        except Exception as e:   # noqa
+                            okb, what = False, 'raised %r' % e
+                        ctx.case(('csv-empty-target', benc, bkind, repr(T)))
+                        ctx.count('csv:empty-target')
+                        if not okb and all(len(r) > 0 for r in T):
+                            fail('csv|empty-target|%s' % ('append' if bkind != 'mem' else 'read'), 'a target that is still empty: %s does not behave like writing / reading from scratch' % what,
+                                 {'table': repr(T), 'encoding': benc, 'source': bkind})
             # ---------------- a table whose csv text is larger than any buffer a writer may use (> 1 MiB in one call)
             if ci == 3:
                 big = [['a', 'b']] + [['r%d' % i, rng.choice(['x', 'é', ',']) * 1100] for i in range(1050)]
